@@ -26,37 +26,40 @@ mod a {
     pub fn result_get_ok<P: Proto, const W: u8>() { c02::result_get::<P, W, 0>() }
     pub fn result_get_exc<P: Proto, const W: u8>() { c02::result_get::<P, W, 1>() }
 }
+// tiers: q = quick and thorough, t = thorough only, x = not registered (did not reach a verdict
+// within the caps on the unchanged tree, or not yet calibrated; kept so that it can be run by hand
+// with `bin/check C02 --only <name>`)
 macro_rules! g_protos {
-    ($tb:ident, $name:ident, $unw_bin:expr, $unw_cmp:expr, $($call:tt)*) => {
+    ($tb:ident, $tl:ident, $tc:ident, $name:ident, $unw_bin:expr, $unw_cmp:expr, $($call:tt)*) => {
         g!($tb, $name, bin, PBin, $unw_bin, $($call)*);
-        g!(t, $name, le, PLe, $unw_bin, $($call)*);
-        g!(t, $name, unchecked, PUnchecked, $unw_bin, $($call)*);
-        g!(t, $name, compact, PCompact, $unw_cmp, $($call)*);
+        g!($tl, $name, le, PLe, $unw_bin, $($call)*);
+        g!($tl, $name, unchecked, PUnchecked, $unw_bin, $($call)*);
+        g!($tc, $name, compact, PCompact, $unw_cmp, $($call)*);
     };
 }
-g_protos!(q, inner_none, 4, 7, c02::inner_none);
-g_protos!(q, inner_some2, 4, 7, c02::inner_some2);
-g_protos!(q, outer, 4, 7, c02::outer);
-g_protos!(t, outer_noinner, 4, 7, c02::outer_noinner);
-g_protos!(q, scalars_num, 4, 12, c02::scalars_num);
-g_protos!(t, scalars_rest, 4, 12, c02::scalars_rest);
-g_protos!(t, lists_0, 4, 7, a::lists_0);
-g_protos!(q, lists_2_1_1, 4, 7, a::lists_2_1_1);
-g_protos!(t, lists_1_2_0, 4, 7, a::lists_1_2_0);
-g_protos!(t, maps_0, 4, 7, a::maps_0);
-g_protos!(q, maps_1, 4, 7, a::maps_1);
-g_protos!(q, union_a, 4, 7, c02::union_a);
-g_protos!(t, union_b, 4, 7, c02::union_b);
-g_protos!(t, union_c, 4, 7, c02::union_c);
-g_protos!(q, defaults_absent, 4, 7, a::defaults_absent);
-g_protos!(t, defaults_present, 4, 7, a::defaults_present);
-g_protos!(t, tree_0, 4, 7, a::tree_0);
-g_protos!(q, tree_1, 4, 7, a::tree_1);
-g_protos!(t, tree_2, 4, 7, a::tree_2);
-g_protos!(t, typedef_id, 4, 12, c02::typedef_id);
-g_protos!(t, enum_color, 4, 7, c02::enum_color);
-g_protos!(t, exception_oops, 4, 12, c02::exception_oops);
-g_protos!(q, args_get, 4, 12, c02::args_get);
-g_protos!(t, result_get_ok, 4, 7, a::result_get_ok);
-g_protos!(q, result_get_exc, 4, 12, a::result_get_exc);
-g_protos!(t, result_void, 4, 7, c02::result_void);
+g_protos!(q, t, x, inner_none, 4, 7, c02::inner_none);
+g_protos!(q, t, x, inner_some2, 4, 7, c02::inner_some2);
+g_protos!(x, x, x, outer, 6, 7, c02::outer);
+g_protos!(x, x, x, outer_noinner, 4, 7, c02::outer_noinner);
+g_protos!(x, x, x, scalars_num, 11, 12, c02::scalars_num);
+g_protos!(x, x, x, scalars_rest, 7, 12, c02::scalars_rest);
+g_protos!(x, x, x, lists_0, 5, 7, a::lists_0);
+g_protos!(x, x, x, lists_2_1_1, 6, 7, a::lists_2_1_1);
+g_protos!(x, x, x, lists_1_2_0, 6, 7, a::lists_1_2_0);
+g_protos!(q, x, x, maps_0, 4, 7, a::maps_0);
+g_protos!(x, x, x, maps_1, 4, 7, a::maps_1);
+g_protos!(q, t, x, union_a, 4, 7, c02::union_a);
+g_protos!(x, x, x, union_b, 4, 7, c02::union_b);
+g_protos!(x, x, x, union_c, 4, 7, c02::union_c);
+g_protos!(q, t, x, defaults_absent, 4, 7, a::defaults_absent);
+g_protos!(x, x, x, defaults_present, 6, 7, a::defaults_present);
+g_protos!(x, x, x, tree_0, 4, 7, a::tree_0);
+g_protos!(q, t, x, tree_1, 4, 7, a::tree_1);
+g_protos!(q, x, x, tree_2, 4, 7, a::tree_2);
+g_protos!(q, t, x, typedef_id, 4, 12, c02::typedef_id);
+g_protos!(q, t, x, enum_color, 4, 7, c02::enum_color);
+g_protos!(q, x, x, exception_oops, 4, 12, c02::exception_oops);
+g_protos!(q, t, x, args_get, 4, 12, c02::args_get);
+g_protos!(q, x, x, result_get_ok, 4, 7, a::result_get_ok);
+g_protos!(x, x, x, result_get_exc, 4, 12, a::result_get_exc);
+g_protos!(q, t, x, result_void, 4, 7, c02::result_void);
